@@ -1273,9 +1273,10 @@ impl<'a> Run<'a> {
 }
 
 // (the second fragment begins with the letters of the DID scheme: a fragment is whatever follows '#'; the fourth and
-// fifth differ only in that one writes a character percent-encoded: different strings, different entries)
+// fifth differ only in that one writes a character percent-encoded: different strings, different entries; the sixth
+// begins with the DID scheme in ANOTHER letter case followed by a colon - a legal fragment, not a DID)
 const FRAGS: [&str; 32] = [
-  "a", "didcomm", "/k/1", "k-1", "k%2D1", "f", "g", "h", "i", "j", "k", "l", "m", "n", "o", "p", "q", "r", "s", "t", "u", "v", "w", "x", "y", "z", "aa",
+  "a", "didcomm", "/k/1", "k-1", "k%2D1", "DID:k", "g", "h", "i", "j", "k", "l", "m", "n", "o", "p", "q", "r", "s", "t", "u", "v", "w", "x", "y", "z", "aa",
   "ab", "ac", "ad", "ae", "af",
 ];
 
@@ -1311,7 +1312,7 @@ impl Engine for StorEngine {
   }
   fn assumptions(&self, p: &str) -> Vec<String> {
     let mut v = vec![
-      "storage failures are clean (an error is returned and the store is not altered) or, for insert_key_id / delete_key_id / delete, dirty (the store is altered and an error is returned: a lost acknowledgement). generate / insert never fail dirty (the caller gets no key id and cannot take the effect back: that is the store's own obligation, checked on StrongholdStorage in the thorough tier), and in an operation with dirty failures injected errors are of the transient kinds (a store that answers 'not found' for an entry it holds is lying, not failing)".to_owned(),
+      "storage failures are clean (an error is returned and the store is not altered) or, for insert_key_id / delete_key_id / delete, dirty (the store is altered and an error is returned: a lost acknowledgement). generate / insert never fail dirty (the caller gets no key id and cannot take the effect back: that is the store's own obligation, checked on StrongholdStorage in the thorough tier), and in an operation with dirty failures injected errors are of every kind except 'not found' (a store that answers 'not found' for an entry it holds is lying, not failing)".to_owned(),
       "after an error (other than a reported failed undo) the document must equal its pre-state exactly, including the order of entries ('observably unchanged'); after success only the set of entries is compared; IotaDocument metadata timestamps are not compared".to_owned(),
     ];
     if p == "C04" {
@@ -1360,7 +1361,7 @@ impl Engine for StorEngine {
     if long {
       ctx::stat("probe.long_history");
     }
-    let n_frags = if long { 8 + ctx::choose(25) } else { 2 + ctx::choose(4) };
+    let n_frags = if long { 8 + ctx::choose(25) } else { 2 + ctx::choose(5) };
     let faulty = ctx::choose(4) != 0; // one quarter of the runs is the fault-free configuration
     let (yn, yd) = [(0u32, 1u32), (1, 6), (1, 2)][ctx::choose(3)];
     let bystander = ctx::choose(3) == 0;
